@@ -747,6 +747,26 @@ func (c *streamCtx) dirRare() []genCase {
 		b.done()
 		out = append(out, single(s, "rare: fleet mode "+v))
 	}
+	// the provider refresh fails at the start of the scan: RunOnce sleeps 5 s and rebuilds the provider (which describes the
+	// groups again), up to twice; a failing rebuild ends RunOnce with that error.  T = the describe succeeds.
+	seqs := [][]bool{{false}, {false, false}}
+	if c.thorough {
+		seqs = append(seqs, []bool{false, true, false}, []bool{false, true, false, true, false}, []bool{false, true, false, false})
+	}
+	for i, seq := range seqs {
+		s := newSpec(base, nsOffsets[i%3])
+		b := s.group("g1")
+		b.o.MinNodes = 0
+		b.node(0, 7200)
+		b.node(1, 90000)
+		b.node(2, 8000, escAge(base, 1000))
+		b.node(3, 8100, forced())
+		s.Tries = map[string]int{"asg-g1": 1} // a rebuilt provider has forgotten this counter
+		b.util([]int64{5, 150, 55}[i%3], 0, true, false)
+		b.done()
+		s.RefreshSeq = seq
+		out = append(out, single(s, fmt.Sprintf("rare: provider refresh outcomes %v", seq)))
+	}
 	return out
 }
 
